@@ -37,19 +37,19 @@ type romodScn struct {
 }
 
 type romodObs struct {
-	ID        int      `json:"id"`
-	Kind      string   `json:"kind"`
-	Upload    string   `json:"upload"`
-	Sub       string   `json:"sub"`
-	Flags     []string `json:"flags"`
-	Transport string   `json:"transport"`
-	Missing   bool     `json:"missing"`
-	Reply     string   `json:"reply"`   // ok | error (handshake)
-	Refused   bool     `json:"refused"` // the session was ended by the server with an error (frame or close) before any request
-	ErrText   string   `json:"errtext"`
-	Requests  int      `json:"requests"`
-	Changed   bool     `json:"changed"`  // the module (or the other modules) differ after the attempt
-	Diff      []string `json:"diff"`
+	ID        int             `json:"id"`
+	Kind      string          `json:"kind"`
+	Upload    string          `json:"upload"`
+	Sub       string          `json:"sub"`
+	Flags     []string        `json:"flags"`
+	Transport string          `json:"transport"`
+	Missing   bool            `json:"missing"`
+	Reply     string          `json:"reply"`   // ok | error (handshake)
+	Refused   bool            `json:"refused"` // the session was ended by the server with an error (frame or close) before any request
+	ErrText   string          `json:"errtext"`
+	Requests  int             `json:"requests"`
+	Changed   bool            `json:"changed"` // the module (or the other modules) differ after the attempt
+	Diff      []string        `json:"diff"`
 	Scn       json.RawMessage `json:"scn"`
 }
 
